@@ -32,6 +32,7 @@ class Oblig:
     path: int = 0
     serves: List[str] = field(default_factory=list)
     expect_sat: bool = False  # cover / reachability checks: `sat` is the good answer
+    hint: Optional[str] = None  # back end that discharged this class when the ledger was recorded
 
 
 class State:
